@@ -40,7 +40,9 @@ func suiteC16ErrPos(cfg Config, res *Result) {
 		"{{ s|slice:\"x\" }}", "{{ i|pluralize:\"a,b,c\" }}", "{{ s|pluralize }}", "{{ s|date:\"x\" }}", "{{ s|time:\"x\" }}", "{{ s|yesno:\"a,b,c,d\" }}", "{{ s|yesno:\"a\" }}",
 		"{{ s|rjust:99999999 }}", "{{ s|center:99999999 }}", "{% if s|slice:\"x\" %}{% endif %}", "{% set v = i|pluralize:\"a,b,c\" %}", "{{ f|floatformat:99999 }}",
 		"{% if x -%}\n   hello", "{% for q in l -%}  \n tail", "{% block bb -%}\n\n  body", "{% if x %}a{%- else -%}\n  b", "{% with a=1 -%} \n w",
-		"{{ nosuch|nosuchfilter }}", "{% nosuchtag %}", "{{ 1 + }}", "{% if %}{% endif %}", "{{ \"a\\\"b\"|nosuchfilter }}", "{{ 'x\\\\y\\\"z'|nosuch2 }}", "{% for %}", "{{ x..y }}", "{% include %}"}
+		"{{ nosuch|nosuchfilter }}", "{% nosuchtag %}", "{{ 1 + }}", "{% if %}{% endif %}", "{{ \"a\\\"b\"|nosuchfilter }}", "{{ 'x\\\\y\\\"z'|nosuch2 }}", "{% for %}", "{{ x..y }}", "{% include %}",
+		// lexer errors
+		"{{ \"unclosed }}", "{# unclosed", "{% verbatim %} no end", "{{ \"a\\qb\" }}", "{{ 1\n }}", "{{ ", "{{ @ }}", "{% if 'x %}", "{{ 1 }}{% comment %}", "{{ 9a }}"}
 	pad := func() string {
 		k := rng.Intn(4)
 		s := ""
@@ -65,7 +67,21 @@ func suiteC16ErrPos(cfg Config, res *Result) {
 			sub := pad() + rng.Pick(bad) + pad()
 			files := map[string]string{}
 			var src string
-			switch rng.Intn(5) {
+			switch rng.Intn(8) {
+			case 5:
+				files["sub.tpl"] = sub
+				src = pad() + `{% ssi "sub.tpl" parsed %}`
+			case 6:
+				// compiled only when the including tag runs
+				files["sub.tpl"] = sub
+				src = pad() + rng.Pick([]string{`{% include subname %}`, `{% with n="sub.tpl" %}` + pad() + `{% include n %}{% endwith %}`})
+				ct.Names = append(append([]string{}, ct.Names...), "subname")
+				ct.Vals = append(append([]VT{}, ct.Vals...), vStr("sub.tpl"))
+			case 7:
+				// reached through a second file
+				files["sub.tpl"] = sub
+				files["mid.tpl"] = pad() + rng.Pick([]string{`{% include "sub.tpl" %}`, `{% import "sub.tpl" nn %}`, `{% ssi "sub.tpl" parsed %}`, `{% extends "sub.tpl" %}`}) + pad()
+				src = pad() + rng.Pick([]string{`{% include "mid.tpl" %}`, `{% ssi "mid.tpl" parsed %}`, `{% extends "mid.tpl" %}`})
 			case 0:
 				files["sub.tpl"] = sub
 				src = pad() + `{% include "sub.tpl" %}`
